@@ -177,6 +177,13 @@ class LayerRuleModel:
         elif not self.started:
             verdict = "reject"  # every other call needs layers_that (and hence an architecture) first
         elif k == "are_named":
+            if "L0" in (op[1] if isinstance(op[1], list) else [op[1]]) and not (self.position == "subject" and (isinstance(op[1], list) or self.subject)):
+                # a layer that never received modules: an incomplete definition, rejected when it is named or at the latest
+                # by assert_applies (C13 decides that it never yields a verdict); no claim about which call raises
+                if self.position == "subject":
+                    self.subject = True
+                self.on_canon = False
+                return "noclaim"
             if self.position == "subject":
                 if isinstance(op[1], list) or self.subject:
                     verdict = "reject"
